@@ -248,6 +248,67 @@ def _check_root_ref(root, doc, params):
         raise Problem("refs", "all_refs is in force but the dataclass root was emitted inline", {"keys": list(doc)[:6]})
 
 
+def _has_dataclass(v, depth=0) -> bool:
+    import dataclasses
+    if dataclasses.is_dataclass(v) and not isinstance(v, type):
+        return True
+    if depth > 6:
+        return False
+    if isinstance(v, dict):
+        return any(_has_dataclass(k, depth + 1) or _has_dataclass(x, depth + 1) for k, x in v.items())
+    if isinstance(v, (list, tuple, set, frozenset)):
+        return any(_has_dataclass(x, depth + 1) for x in v)
+    return False
+
+
+def _check_default_values(root, stats):
+    """the "default" of every property = what the serializer emits for that field of a default-constructed instance.
+    Applies to a dataclass root that can be built without arguments and whose Config (and Config.dialect) sets none of
+    omit_none / omit_default / serialize_by_alias (then the encoder output has every field under its own name)."""
+    import dataclasses
+    from mashumaro.codecs.basic import BasicEncoder
+    from mashumaro.jsonschema import build_json_schema
+    if not (isinstance(root, type) and dataclasses.is_dataclass(root)):
+        return
+    cfg = getattr(root, "Config", None)
+    for ns in (cfg, getattr(cfg, "dialect", None)):
+        if ns is not None and any(getattr(ns, o, False) is True for o in ("omit_none", "omit_default", "serialize_by_alias")):
+            return
+    try:
+        inst = root()
+        encoded = BasicEncoder(root).encode(inst)
+    except Exception:
+        return            # not constructible without arguments / not encodable: nothing to compare with
+    if not isinstance(encoded, dict):
+        return
+    try:
+        props = build_json_schema(root, all_refs=False).to_dict().get("properties", {})
+    except Exception:
+        return            # (a document that only exists because the library swallowed its own RecursionError: known findings)
+    aliases = dict(getattr(cfg, "aliases", {}) or {})
+    for f in dataclasses.fields(root):
+        if not f.init or f.default is dataclasses.MISSING or f.name not in encoded:
+            continue
+        if "Annotated[" in str(f.type) or "Alias" in str(f.type):
+            continue
+        if _has_dataclass(f.default):
+            continue      # a nested dataclass brings its own Config (and may take the neutral dialect of _default): not comparable
+        key = f.metadata.get("alias")
+        if key is None:
+            key = aliases.get(f.name)
+        key = key or f.name
+        if key not in props:
+            continue
+        stats["default_values"] = stats.get("default_values", 0) + 1
+        fo = "serialize" in f.metadata or "serialization_strategy" in f.metadata
+        if "default" not in props[key]:
+            raise Problem("default-value", "a field with an explicit default has no \"default\" in its schema", {"field": f.name, "field_override": fo})
+        if not deep_eq(props[key]["default"], encoded[f.name]):
+            raise Problem("default-value", "the rendered default differs from what the serializer emits for the default value",
+                          {"field": f.name, "schema_default": repr(props[key]["default"])[:200], "serialized": repr(encoded[f.name])[:200],
+                           "field_override": fo})
+
+
 def run_case(case: dict) -> dict:
     """Returns {"ok": True, ...stats} or {"ok": False, "clause", "what", "detail", "exc"}."""
     from mashumaro.jsonschema import JSONSchemaBuilder, build_json_schema
@@ -332,6 +393,7 @@ def _run_case(case: dict, params: dict, stats: dict) -> dict:
                 if not deep_eq(doc2, doc) or not deep_eq(defs2, defs_docs):
                     raise Problem("accumulate", "a second call with a fresh context gives a different document / definitions",
                                   {"first": repr(doc)[:300], "second": repr(doc2)[:300], "defs_first": sorted(defs_docs), "defs_second": sorted(defs2)})
+                _check_default_values(roots[0], stats)
             elif case["mode"] == "shared":
                 # several build_json_schema calls, each with its own keyword arguments, on ONE caller-supplied Context
                 ctx = make_context(params)
@@ -438,8 +500,8 @@ def classify(case: dict, res: dict) -> dict:
             kind = "slots-descriptor-default"
         elif exc == "UnserializableField" and "_default.<locals>.CC" in msg and last.get("tp_field_default"):
             kind = "default-ignores-field-strategy"
-        elif exc in ("NameError", "UnresolvedTypeReferenceError") and last.get("nt_fwd_default"):
-            kind = "default-forwardref-namedtuple"
+        elif exc == "NameError" and last.get("nt_fwd_default"):
+            kind = "default-over-string-annotated-namedtuple"
         elif exc == "ValueError" and msg.startswith("mutable default") and last.get("nt_mutable"):
             kind = "nt-mutable-default"
         elif exc in ("RecursionError", "CaseTimeout") and last.get("cyclic") and not last.get("field_strategy_unannotated") and not last.get("field_override_container"):
@@ -448,6 +510,9 @@ def classify(case: dict, res: dict) -> dict:
             kind = "field-strategy-unannotated"
         elif exc in ("RecursionError", "CaseTimeout") and last.get("field_override_container") and not last.get("cyclic"):
             kind = "field-override-container"
+    elif res.get("clause") == "default-value" and (res.get("detail") or {}).get("field_override"):
+        # _default() ignores the field-level serialize / serialization_strategy options (same root cause as the crash)
+        kind = "default-ignores-field-strategy"
     elif res.get("clause") == "metaschema" and "validator crashed" in res.get("what", "") and res.get("detail", {}).get("depth", 0) >= 150 \
             and any(f.get("field_override_container") for f in upto):
         # the library swallowed its own RecursionError (except Exception -> Any) and returned a ~1000-deep document
